@@ -460,6 +460,16 @@ Walk:
 
 			// No next static segment found, but maybe some params or wildcard child
 			if idx < 0 {
+				// Tsr recommendation: remove the extra trailing slash (got an exact match with this leaf), before
+				// the remaining slash is handed over to a param or wildcard child that cannot match it.
+				if !tsr && current.isLeaf() && charsMatched == len(path)-1 && path[charsMatched] == slashDelim && charsMatchedInNodeFound == len(current.key) {
+					tsr = true
+					n = current
+					// Save also a copy of the matched params, it should not allocate anything in most case.
+					if !lazy {
+						copyWithResize(c.tsrParams, c.params)
+					}
+				}
 				// We have at least a param child which is has higher priority that catch-all
 				if current.paramChildIndex >= 0 {
 					// We have also a wildcard child, save it for later evaluation
